@@ -69,6 +69,9 @@ func runC06(cs c06Case) (string, []lib.Problem) {
 	seen := map[string]bool{}
 	add := func(cut int, t uint64, mode, key, f string, a ...any) {
 		k := "checkpoint:" + key + ":" + mode + ":" + sig
+		if key == "final-state-differs-only-in-generated-ids" {
+			k = "checkpoint:" + key + ":" + mode // one root cause across all assemblies
+		}
 		if seen[k] {
 			return
 		}
@@ -196,16 +199,21 @@ func firstDiff(a, b []byte) string {
 func c06Configs(c *lib.Ctx) []simx.ChainCfg {
 	var out []simx.ChainCfg
 	stages := [][]string{{}, {"wb"}, {"wt-around"}, {"wt-evict"}, {"wt-through"}, {"rob", "wb"}, {"wt-through", "wb"}}
+	if !c.Thorough() {
+		stages = [][]string{{"wb"}, {"wt-through"}, {"rob", "wb"}}
+	}
 	for _, st := range stages {
 		out = append(out, simx.ChainCfg{Stages: st, Memory: "ideal", NumMem: 1, PortBuf: 4, Lat: 1, MSHR: 2, Eager: true})
 	}
 	out = append(out,
 		simx.ChainCfg{Stages: []string{"wb"}, Memory: "banked2", NumMem: 2, PortBuf: 1, Lat: 2, MSHR: 1, Eager: true},
-		simx.ChainCfg{Stages: []string{}, Memory: "banked2", NumMem: 1, PortBuf: 4, Lat: 1, MSHR: 1, Eager: true},
 		simx.ChainCfg{Stages: []string{}, Memory: "dram-DDR4-open", NumMem: 1, PortBuf: 4, Lat: 1, MSHR: 1, Eager: true},
-		simx.ChainCfg{Stages: []string{"wb"}, Memory: "dram-HBM2", NumMem: 1, PortBuf: 4, Lat: 1, MSHR: 2, Eager: true},
 	)
 	if c.Thorough() {
+		out = append(out,
+			simx.ChainCfg{Stages: []string{}, Memory: "banked2", NumMem: 1, PortBuf: 4, Lat: 1, MSHR: 1, Eager: true},
+			simx.ChainCfg{Stages: []string{"wb"}, Memory: "dram-HBM2", NumMem: 1, PortBuf: 4, Lat: 1, MSHR: 2, Eager: true},
+		)
 		for _, st := range stages {
 			out = append(out, simx.ChainCfg{Stages: st, Memory: "ideal", NumMem: 1, PortBuf: 1, Lat: 0, MSHR: 1, Eager: false})
 		}
@@ -218,8 +226,14 @@ func c06Configs(c *lib.Ctx) []simx.ChainCfg {
 
 func enumC06(c *lib.Ctx, yield func(c06Case) bool) {
 	lines := simx.SameSetLines(3)
-	alpha2 := opAlphabet(lines[:2])
 	alpha3 := opAlphabet(lines)
+	// quick alphabet: 5 kinds on line A + {write line, read line} on line B
+	a, b := lines[0], lines[1]
+	quick := []simx.MemOp{
+		{Addr: a, Size: 4}, {Addr: a, Size: simx.LineSize},
+		{Write: true, Addr: a, Size: simx.LineSize}, {Write: true, Addr: a + 8, Size: 4}, {Write: true, Addr: a, Size: simx.LineSize, Mask: []bool{}},
+		{Write: true, Addr: b, Size: simx.LineSize}, {Addr: b, Size: simx.LineSize},
+	}
 	for _, cfg := range c06Configs(c) {
 		y := func(ops []simx.MemOp) bool { return yield(c06Case{Cfg: cfg, Ops: ops, Cut: -1}) }
 		if c.Thorough() {
@@ -228,13 +242,7 @@ func enumC06(c *lib.Ctx, yield func(c06Case) bool) {
 			}
 			continue
 		}
-		// quick: every pair over 2 lines, restricted to scripts with at least one write
-		if !enumScripts(alpha2, 2, func(ops []simx.MemOp) bool {
-			if !ops[0].Write && !ops[1].Write {
-				return true
-			}
-			return y(ops)
-		}) {
+		if !enumScripts(quick, 2, y) {
 			return
 		}
 	}
@@ -244,7 +252,7 @@ func init() {
 	lib.Register(&lib.Check{
 		ID:    "C06",
 		Level: "fault_enumeration",
-		Rule: "crash-point style enumeration: for each assembly of the checkpoint catalogue (ideal / banked / DRAM memory, write-back, three write-through policies, ROB, two-level, interleaved; inside a real simulation.Simulation with tracing off) x every 2-operation script (quick: over 2 lines with at least one write; thorough: over 3 lines, more geometries and all DRAM presets), the uninterrupted run is recorded; then for EVERY distinct event time t: RunUntil(t), SaveCheckpoint, rebuild the identical simulation, LoadCheckpoint, Run — in two modes (fresh process state: ID generator and tracing side tables reset; same process: kept). " +
+		Rule: "crash-point style enumeration: for each assembly of the checkpoint catalogue (ideal / banked / DRAM memory, write-back, three write-through policies, ROB, two-level, interleaved; inside a real simulation.Simulation with tracing off) x every 2-operation script (quick: 7-operation alphabet over 2 lines on 5 assemblies; thorough: 21-operation alphabet over 3 lines, more assemblies and geometries and all DRAM presets), the uninterrupted run is recorded; then for EVERY distinct event time t: RunUntil(t), SaveCheckpoint, rebuild the identical simulation, LoadCheckpoint, Run — in two modes (fresh process state: ID generator and tracing side tables reset; same process: kept). " +
 			"Oracle: the handled-event suffix after t and the final SaveCheckpoint bytes of every entity (components, ports, connection, storages, engine, ID generator) equal the uninterrupted run's; the resumed run satisfies the flat-memory oracle. A case = (assembly, script); restores_explored counts (cut, mode) pairs.",
 		Sharded:     true,
 		MinOutcomes: 5,
